@@ -21,7 +21,7 @@ do_by_sequences(ESL_GENCODE *gcode, ESL_GENCODE_WORKSTATE *wrk, ESL_SQFILE *sqfp
 
   while (( status = esl_sqio_Read(sqfp, sq )) == eslOK)
     {
-      if (sq->n < 3) continue;
+      if (sq->n < 3) { esl_sq_Reuse(sq); continue; }   /* too short to hold a codon; forget it before the next read */
 
       if (wrk->do_watson) {
         esl_gencode_ProcessStart(gcode, wrk, sq);
